@@ -18,12 +18,14 @@ def path_text(o):
 
 def meaning(o):
     host = o.hostText if (o.ip6 == "-") else "ip6:" + o.ip6
-    return (o.scheme, o.has_host(), o.userInfo, host if o.has_host() else "-", o.ip4, o.ipFuture, o.port, path_text(o), o.query, o.fragment)
+    # the IPv4 octets are not compared: a registered name whose normal form happens to be a dotted quad
+    # ("%31.2.3.4" -> "1.2.3.4") keeps its text, which is all the property speaks of; the host text is compared
+    return (o.scheme, o.has_host(), o.userInfo, host if o.has_host() else "-", o.ipFuture, o.port, path_text(o), o.query, o.fragment)
 
 def gen_histories(chk, mdl, n):
     r = chk.rng
     texts = uris.valid_texts(mdl, uris.small_texts(3, queries=(None,))) + \
-            uris.valid_texts(mdl, uris.small_texts(2, alphabet=uris.SEG_FULL, auths=(None, "//H%41", "//u@[::1]:8", "//1.2.3.4", "//[vF.x]"), schemes=(None, "S"), queries=(None, "%7e"), frags=(None, "F")))
+            uris.valid_texts(mdl, uris.small_texts(2, alphabet=uris.SEG_FULL, auths=(None, "//H%41", "//u@[::1]:8", "//1.2.3.4", "//[vF.x]", "//%31.2.3.4", "//[::A:1.2.3.4]"), schemes=(None, "S"), queries=(None, "%7e"), frags=(None, "F")))
     abs_texts = [t for t in texts if t[:2].lower() == "s:"]
     out = []
     for _ in range(n):
